@@ -1,5 +1,5 @@
 import JsightVerif.Props.C05
-import JsightVerif.Proofs.BuildProps
+import JsightVerif.Proofs.BuildRegs
 /-
   C02 — the catalog says exactly what the document says (registry level).
   For every section, folding the document's declarations (in document order, pairwise distinct
@@ -35,6 +35,18 @@ theorem C02_interactions_exact (roots : List DT) (rootFile : Bytes) (banned : Li
   obtain ⟨_, _, _, _, tags, enums, s, _, _, _, hadd, hc⟩ := build_stages roots rootFile banned content b h
   rw [hc, addList_ids content b.expanded [] b.expanded [] _ s hadd]
   simp
+
+/-- **C02 (servers and user types, tied model)**: in every accepted project the servers and the
+    user types of the catalog are exactly the SERVER / TYPE directives of the expanded document, by
+    name and in document order. -/
+theorem C02_servers_types_exact (roots : List DT) (rootFile : Bytes) (banned : List Kind)
+    (content : Bytes → Bytes) (b : Built) (h : build roots rootFile banned content = .ok b) :
+    serverNames b.cat = collectList (fun d _ => newServers d) b.expanded [] ∧
+    typeNames b.cat = collectList (fun d _ => newTypes d) b.expanded [] := by
+  obtain ⟨_, _, _, _, tags, enums, s, _, _, _, hadd, hc⟩ := build_stages roots rootFile banned content b h
+  rw [hc]
+  exact ⟨by simpa [serverNames] using (addList_servers content b.expanded _ s hadd).1,
+         by simpa [typeNames] using (addList_types content b.expanded _ s hadd).1⟩
 
 /-- non-vacuity: a two-directive forest the model accepts, with its one interaction -/
 example :
